@@ -31,14 +31,16 @@ worker() {
     fi
     if ! (cd "$HW" && go build -tags verif -o "$VD/harness/bin/vcheck" ./cmd/vcheck 2> "$VD/build.log" \
           && go build -race -tags verif -o "$VD/harness/bin/vcheck-race" ./cmd/vcheck 2>> "$VD/build.log" \
-          && go build -race -tags verif -o "$VD/harness/bin/vfirst" ./cmd/vfirst 2>> "$VD/build.log"); then
+          && go build -race -tags verif -o "$VD/harness/bin/vfirst-race" ./cmd/vfirst 2>> "$VD/build.log" \
+          && go build -tags verif -o "$VD/harness/bin/vfirst" ./cmd/vfirst 2>> "$VD/build.log"); then
       echo "$id :: BUILD-FAILED $(head -3 "$VD/build.log" | tr '\n' ' ')"
       cd "$RW" && git reset -q --hard HEAD && git clean -fdq; continue
     fi
     alarms=""
     for p in $IDS; do
-      bin="$VD/harness/bin/vcheck"; [ "$p" = "C17" ] && bin="$VD/harness/bin/vcheck-race"
-      out=$(cd "$VD" && VERIF_DIR="$VD" VCHECK_BIN="$bin" VFIRST_BIN="$VD/harness/bin/vfirst" timeout 1800 "$bin" "$p" quick 2>&1); rc=$?
+      bin="$VD/harness/bin/vcheck"; vf="$VD/harness/bin/vfirst"
+      [ "$p" = "C17" ] && bin="$VD/harness/bin/vcheck-race" && vf="$VD/harness/bin/vfirst-race"
+      out=$(cd "$VD" && VERIF_DIR="$VD" VCHECK_BIN="$bin" VFIRST_BIN="$vf" timeout 1800 "$bin" "$p" quick 2>&1); rc=$?
       if [ "$rc" -ne 0 ]; then
         alarms="$alarms $p(rc=$rc)"
         mkdir -p "$ROOT/alarms"; echo "$out" | grep -a '^VIOLATION\|^RESULT\|INCONCLUSIVE' | head -8 > "$ROOT/alarms/$(echo "$id" | tr '/' '_').$p.txt"
